@@ -42,6 +42,13 @@ EXTRA_SMILES = [
 ]
 FILES = ['isomorphism.sdf', 'mcs.sdf', 'standardize.sdf', 'arenes.sdf', 'hbonds.sdf', 'depict.sdf', 'implicit.sdf',
          'morgan_ruiner.sdf', 'stereo.sdf', 'MR.rdf', 'ions.rdf', 'standardize.rdf', 'implicit.mrv', 'cycle.sdf']
+RXN_OBS = ['rxn_str', 'rxn_fmt_m', 'rxn_fmt_h', 'rxn_cgr', 'rxn_cgr_order', 'rxn_centers', 'rxn_canonicalize', 'rxn_standardize',
+           'rxn_kekule', 'rxn_thiele', 'rxn_members']
+RXN_SMILES = ['CCO.CC(=O)O>>CC(=O)OCC.O', '[CH3:1][CH2:2][OH:3].[CH3:4][C:5](=[O:6])[OH:7]>>[CH3:4][C:5](=[O:6])[O:3][CH2:2][CH3:1].[OH2:7]',
+              'c1ccccc1.Cl>[Al](Cl)(Cl)Cl>Clc1ccccc1', 'C=C.C=CC=C>>C1CCC=CC1', 'CC(=O)C>>CC(O)=C', 'OC(=O)c1ccccc1.CN>>CNC(=O)c1ccccc1.O',
+              '[Na+].[OH-].CCl>>CO.[Na+].[Cl-]', 'C[C@H](O)C(=O)O>>C[C@@H](O)C(=O)O', 'C/C=C/C.BrBr>>C[C@H](Br)[C@@H](C)Br',
+              'CC#N.O>>CC(N)=O', 'c1ccncc1.CI>>C[n+]1ccccc1.[I-]', 'O=C1CCCCC1.NO>>ON=C1CCCCC1.O', 'CCBr.[Mg]>>CC[Mg]Br',
+              'C1CC1.[H][H]>>CCC', 'N#N.[H][H].[H][H].[H][H]>>N.N']
 _corpus_cache = None
 
 
@@ -58,6 +65,9 @@ def full_corpus():
                      ('ions.rdf', 4), ('standardize.rdf', 12), ('implicit.mrv', 1), ('cycle.sdf', 20)):
             out += [['file', f, k] for k in range(n)]
         out += [['edit', s, k] for k, s in enumerate(EXTRA_SMILES[:30])]
+        out += [['rxnsmi', s] for s in RXN_SMILES]
+        for f, n in (('ions.rdf', 1), ('reaction_centerslist.rdf', 2), ('standardize.rdf', 6)):
+            out += [['rxnfile', f, k] for k in range(n)]
         _corpus_cache = out
     return _corpus_cache
 
@@ -68,11 +78,23 @@ def draw_config(rng, k):
             'gc': rng.choice(['on', 'on', 'off', 'low']), 'window': rng.choice([1, 2, 4, 8])}
 
 
-def make_events(rng, n_mols, tier, cfg):
+def make_events(rng, n_mols, tier, cfg, corpus=None):
     order = list(range(n_mols))
     rng.shuffle(order)
     per = []
     for i in order:
+        if corpus is not None and corpus[i][0] in ('rxnsmi', 'rxnfile'):
+            names = list(RXN_OBS)
+            rng.shuffle(names)
+            ev = [['load', i]]
+            ev += [['obs', i, n, 'first'] for n in names]
+            ev += [['obs', i, n, 'again'] for n in rng.sample(names, 5)]
+            if rng.random() < 0.6:
+                ev.append(['copy', i])
+                ev += [['obs_copy', i, n, 'copy'] for n in rng.sample(names, 5)]
+            ev.append(['drop', i])
+            per.append(ev)
+            continue
         names = list(CHEAP)
         names += rng.sample(MEDIUM, 4 if tier == 'quick' else 6)
         names += ['smarts%d%s' % (k, rng.choice(['', '_all'])) for k in rng.sample(range(N_SMARTS), 5 if tier == 'quick' else 8)]
@@ -277,6 +299,7 @@ def _main(a, scratch):
     slices = [chosen[k:k + slice_n] for k in range(0, len(chosen), slice_n)]
 
     probes = Counter()
+    probes['reactions_in_run'] = sum(1 for k in chosen if corpus_all[k][0] in ('rxnsmi', 'rxnfile'))
     total_obs = 0
     keys_compared = 0
     configs_used = set()
@@ -288,7 +311,7 @@ def _main(a, scratch):
         for k in range(T['execs']):
             rng = random.Random(core.derive_seed(base, PROP, f'exec/{si}/{k}'))
             cfg = draw_config(rng, k)
-            jobs.append({'config': cfg, 'corpus': corpus, 'events': make_events(rng, len(corpus), tier, cfg)})
+            jobs.append({'config': cfg, 'corpus': corpus, 'events': make_events(rng, len(corpus), tier, cfg, corpus)})
             configs_used.add((cfg['hashseed'], cfg['aslr'], cfg['junk'], cfg['gc'], cfg['window']))
             probes['exec:hashseed=%s' % ('0' if cfg['hashseed'] == 0 else '1' if cfg['hashseed'] == 1 else 'random')] += 1
             probes['exec:aslr_%s' % ('on' if cfg['aslr'] else 'off')] += 1
